@@ -205,6 +205,11 @@ def probe_c20():
         except Exception:
             out["dictGet"] = False
         del EVENTS[n0:]
+        try:
+            from pyflyby import find_missing_imports
+            out["aliasClassScope"] = [str(x) for x in find_missing_imports("class C:\n    q = 1\n    type X = q\n", [{}])] == []
+        except Exception:
+            out["aliasClassScope"] = False
         _C20_PROBE[key] = out
     return dict(_C20_PROBE[key])
 
@@ -577,6 +582,7 @@ class C20(Prop):
         from pyflyby import find_missing_imports
         G.install_builtins()
         objs = build(case)
+        G20.ALIAS_SEES_CLASS_SCOPE = probe_c20()["aliasClassScope"]
         code = case["code"]
         mode = code["mode"]
         obs = dict(nok=[], features=[])
@@ -600,6 +606,7 @@ class C20(Prop):
                     arg = compile(src, "<c20prog>", "exec")
                 except SyntaxError:           # e.g. `yield` in a class body: rejected by the compiler, not by the parser
                     arg = src
+                    obs["src_fallback"] = True      # analysed as source text: the type comments are read
             elif form == "lambda":
                 arg = eval("lambda: (%s,)" % ", ".join(names), g)
             elif form == "builtin":
@@ -709,7 +716,7 @@ class C20(Prop):
         mode = case["code"]["mode"]
         # the dotted names the analysed text mentions; type comments are read from source text and PythonBlocks only;
         # in unused-import mode the docstrings are analysed too (doctests, `{name}`): every dotted word of the text counts
-        dotted = dotted_names_of(src, typed=mode in ("prog", "block", "scan"), text=mode == "scan")
+        dotted = dotted_names_of(src, typed=mode in ("prog", "block", "scan") or bool(obs.get("src_fallback")), text=mode == "scan")
         seen = set()
         for e in obs["events"]:
             ok = False
